@@ -167,6 +167,17 @@ def evaluate(case, obs):
         if a.api == "heartbeat" and t_conv is not None and t_conv <= a.t <= t_stable and a.reply is not None:
             ok = a.reply.get("error") == 0 and a.body["generation"] == gen
             hb_ok.setdefault(a.client_id, []).append(ok)
+    # a member whose start() has still not returned when everybody else has converged (its subscribe event shows that
+    # the consumer was constructed and start() called; nothing killed or stopped it)
+    for tag in never_started:
+        if t_conv is None:
+            break
+        began = [e for e in obs.events if e["kind"] == "subscribe" and e["member"] == tag]
+        ended = any(e["kind"] in ("killed", "start_failed", "stop_call") and e["member"] == tag for e in obs.events)
+        if began and not ended and began[0]["t"] < t_conv - 1.0:
+            out.fail("converges", "start_did_not_return",
+                     {"member": tag, "start_called_at": began[0]["t"], "converged_at": t_conv, "bound": obs.bound,
+                      "joins": sum(1 for a in c.arrivals if a.api == "join" and a.client_id == tag)})
     for tag in live:
         if tag in never_started:
             continue
@@ -306,7 +317,8 @@ def strategy(focus="membership"):
             # still loading answers NOT_COORDINATOR, then COORDINATOR_NOT_AVAILABLE / LOAD_IN_PROGRESS)
             sel = draw(st.sampled_from(["offset_commit", "offset_commit", "heartbeat", "join", "sync", "offset_fetch"]))
             k0 = draw(st.integers(0, 6))
-            for j in range(draw(st.integers(2, 3))):
+            # (now and then a long one: the coordinator keeps loading for longer than max_poll_interval_ms)
+            for j in range(draw(st.sampled_from([2, 3, 3, 14]))):
                 faults.append({"sel": sel, "k": k0 + j, "act": "error",
                                "code": draw(st.sampled_from([c for c in ERR[sel] if c in (14, 15, 16)] or ERR[sel])), "delay": 0.05})
         env = []
@@ -363,9 +375,36 @@ def subscription_change_cases(shard, nshards, step):
                         d += step
 
 
+def slow_first_join_cases(shard, nshards):
+    """The coordinator refuses the first N JoinGroup / FindCoordinator / SyncGroup requests (still loading, not
+    available): the first join of a member stays outstanding for longer than max_poll_interval_ms.  A member that has
+    never been assigned anything cannot have 'stopped polling': it must keep retrying and end up in the group."""
+    i = 0
+    for sel, code in (("join", 14), ("join", 15), ("find_coordinator", 15), ("sync", 14), ("sync", 16)):
+        for n in (4, 8, 16, 30):
+            for mpi in (300, 1000, 300000):
+                for backoff in (10, 50):
+                    for nm in (1, 2):
+                        i += 1
+                        if i % nshards != shard:
+                            continue
+                        members = [{"topics": ["t0"], "start_at": 0.0 if m == 0 else 0.15, "callback_delay": 0, "ops": [],
+                                    "loop_poll": "getmany" if m == 0 else "getone"} for m in range(nm)]
+                        yield {"cfg": {"assignors": ["roundrobin"], "session_timeout_ms": 1000, "heartbeat_interval_ms": 100,
+                                       "rebalance_timeout_ms": 1500, "retry_backoff_ms": backoff, "request_timeout_ms": 2000,
+                                       "auto_commit": True, "auto_commit_interval_ms": 200, "metadata_max_age_ms": 1000,
+                                       "max_poll_interval_ms": mpi},
+                               "cluster": {"nodes": 1, "topics": {"t0": 2}, "join_max": 5, "group_coord": 0, "initial": [3, 2]},
+                               "members": members, "kills": [],
+                               "faults": [{"sel": sel, "k": j, "act": "error", "code": code, "delay": 0.05} for j in range(n)],
+                               "env": [], "run_for": 3.0, "lat": [0.001], "chunks": [0], "rng_seed": 13}
+
+
 def campaigns(tier):
     th = tier == "thorough"
-    return [Campaign("group_sim", "hyp", execute=execute, strategy=strategy, examples=12000 if th else 1280,
+    return [Campaign("slow_first_join", "enum", execute=execute, cases=slow_first_join_cases, exhaustive=True,
+                     setup=GS.setup),
+            Campaign("group_sim", "hyp", execute=execute, strategy=strategy, examples=12000 if th else 1280,
                      setup=GS.setup, max_wall=1000 if th else 110, shrink_wall=40),
             Campaign("subscription_change", "enum", execute=execute,
                      cases=lambda s, n: subscription_change_cases(s, n, 0.0125 if th else 0.05), exhaustive=True,
